@@ -702,9 +702,9 @@ class Gen:
                 r["percent"] = rng.choice(PCT)
                 r["base"] = self.amt(90000, rng.choice([0, 1, 2, 2, 3, 4]), tie=tie)
             else:
-                r["rate"] = self.amt(900, rng.choice([2, 2, 3]), tie=tie)
-                if rng.random() < 0.5:
-                    r["quantity"] = self.amt(50, 1)
+                r["rate"] = self.amt(900, rng.choice([0, 1, 2, 2, 3]), tie=tie)
+                if rng.random() < 0.6:
+                    r["quantity"] = self.amt(50, rng.choice([0, 1, 1, 2, 3]))
             rows.append(r)
         return rows
 
